@@ -146,17 +146,43 @@ def audit_axioms(module: str, theorems: list[str], work: Path) -> tuple[dict[str
 DRIVER_COPY: list[Path] = []
 
 
-def run_driver(lines: list[str]) -> list[str]:
-    if not lines:
-        return []
-    exe = DRIVER_COPY[0] if DRIVER_COPY else DRIVER
-    p = subprocess.run([str(exe)], input="\n".join(lines) + "\n", capture_output=True, text=True)
+MODEL_TIMEOUT = "(model-timeout)"
+
+
+def _drive(exe, lines: list[str], timeout: float) -> list[str] | None:
+    try:
+        p = subprocess.run([str(exe)], input="\n".join(lines) + "\n", capture_output=True, text=True, timeout=timeout)
+    except subprocess.TimeoutExpired:
+        return None
     out = p.stdout.split("\n")
     if out and out[-1] == "":
         out.pop()
     if len(out) != len(lines):
         raise RuntimeError(f"driver answered {len(out)} lines for {len(lines)} requests; stderr={p.stderr[-500:]}")
     return out
+
+
+def run_driver(lines: list[str]) -> list[str]:
+    """the model's answers, one per request line.  The model is total and fast on every request a run of the unchanged
+    code produces; a request on which it does not answer within the time limit (it can happen when the code under
+    examination has drifted so far from the model that the recorded history is inadmissible for the model) is answered
+    with `(model-timeout)`, which differs from every real observation and is reported like any other difference."""
+    if not lines:
+        return []
+    exe = DRIVER_COPY[0] if DRIVER_COPY else DRIVER
+    out = _drive(exe, lines, 30 + 0.02 * len(lines))
+    if out is not None:
+        return out
+    res = []
+    slow = 0
+    for ln in lines:
+        o = _drive(exe, [ln], 10) if slow < 5 else None
+        if o is None:
+            slow += 1
+            res.append(MODEL_TIMEOUT)
+        else:
+            res.append(o[0])
+    return res
 
 
 # ------------------------------------------------------------------ known findings
@@ -210,6 +236,7 @@ def main(argv: list[str]) -> int:
 
 
 def _run(prop, mod, tier, seed, work, t0, replay_file) -> int:
+    budget_s = getattr(mod, "BUDGET", {"quick": 240, "thorough": 2400})[tier]
     log: list[str] = []
     notes: list[str] = []
     # 1-2 build
@@ -354,6 +381,13 @@ def _run(prop, mod, tier, seed, work, t0, replay_file) -> int:
             flush()
         if len(violations) >= 20:
             break
+        if evaluations % 50 == 0 and replay_index is None and time.time() - t0 > 0.7 * budget_s:
+            # most of the budget is gone (e.g. a change that makes many operations hang until their alarm): report what
+            # was found so far rather than running into the budget with the findings unreported
+            flush()
+            if violations:
+                notes.append(f"stopped after {evaluations} cases: 70% of the {budget_s}s budget used, violations already found")
+                break
     flush()
 
     # 5 a broken tie / mechanism-level diff without a failing input is still reported
